@@ -217,7 +217,7 @@ st_planar = st.fixed_dictionaries({
 
 PLANAR = Sub("planar_unchanged", sub_planar, st_planar, 1500, 60000, nontrivial=lambda c: any(abs(h) > 1 for h in c["headings_deg"]))
 SUBS = [
-    Sub("general", sub_general, st_general, 1500, 60000, nontrivial=lambda c: True),
+    Sub("general", sub_general, st_general, 4000, 60000, nontrivial=lambda c: True),
     PLANAR,
     Sub("planar_grid", kind="custom", custom=custom_grid, n_quick=1, n_thorough=1, shards_quick=4, shards_thorough=16,
         exhaustive_tiers=("quick", "thorough")),
